@@ -387,6 +387,7 @@ class SAMIWriter(BaseWriter):
         self.last_time = None
 
     def write(self, caption_set):
+        self.open_span = False
         caption_set = deepcopy(caption_set)
         sami = BeautifulSoup(SAMI_BASE_MARKUP, "lxml-xml")
 
